@@ -137,6 +137,9 @@ func Mint(parent *Ent, s CertSpec) *Ent {
 	case "codesign":
 		tmpl.KeyUsage = x509.KeyUsageDigitalSignature
 		tmpl.ExtKeyUsage = []x509.ExtKeyUsage{x509.ExtKeyUsageCodeSigning}
+	case "leaf-certsign": // an end-entity certificate (not a CA) whose key usage nevertheless includes keyCertSign
+		tmpl.KeyUsage = x509.KeyUsageDigitalSignature | x509.KeyUsageCertSign
+		tmpl.ExtKeyUsage = []x509.ExtKeyUsage{x509.ExtKeyUsageCodeSigning}
 	case "leaf-noeku":
 		tmpl.KeyUsage = x509.KeyUsageDigitalSignature
 	case "tsa":
